@@ -164,6 +164,8 @@ def env_atoms(desc, host_atoms):
 def build_case(desc):
     """-> (text, info, input_atoms) or None if the environment pose is
     rejected."""
+    if "window" in desc:
+        return build_window(desc)
     d = dict(desc)
     omit = {}
     for dev in desc.get("env", []):
@@ -353,3 +355,96 @@ def extra_cases(ff, names=None):
                 out.append({"x": x, "pos": pos, "ff": ff, "opt": "default",
                             "env": [["extra", nm]]})
     return out
+
+
+# ---------------------------------------------------------------------------
+# real-structure windows: every contiguous k-residue window of the bundled
+# structures (real, distorted geometry; a finite, fully enumerated family)
+# ---------------------------------------------------------------------------
+WINDOW_FILES = ["1AJJ.pdb", "1BX8.pdb", "cterm_hid.pdb", "1K1I.pdb",
+                "1QBS.pdb", "1US0.pdb", "1AFS.pdb"]
+_WCACHE = {}
+
+
+def _file_residues(fname):
+    """-> list of chains; chain = list of residues; residue = (res_name,
+    res_seq, [(name, xyz)]) with heavy atoms of standard amino acids only,
+    first alternate location, chains cut at non-standard residues / icodes."""
+    if fname in _WCACHE:
+        return _WCACHE[fname]
+    from .engine import REPO
+
+    chains, cur, last_key, seen = [], [], None, set()
+    std = set(T.AMINO)
+    for line in (REPO / "tests/data" / fname).read_text().splitlines():
+        if line.startswith("ENDMDL"):
+            break
+        if line.startswith("TER"):
+            if cur:
+                chains.append(cur)
+            cur, last_key = [], None
+            continue
+        if not line.startswith("ATOM"):
+            continue
+        name = line[12:16].strip()
+        alt = line[16]
+        resn = line[17:20].strip()
+        key = (line[21], int(line[22:26]), line[26])
+        elem = line[76:78].strip() if len(line) >= 78 else ""
+        if resn not in std or key[2] != " ":
+            if cur:
+                chains.append(cur)
+            cur, last_key = [], None
+            continue
+        if elem == "H" or name.startswith("H") or (name[0].isdigit()
+                                                   and "H" in name[:2]):
+            continue
+        if alt not in (" ", "A"):
+            continue
+        if key != last_key:
+            if last_key is not None and (key[0] != last_key[0]
+                                         or key[1] != last_key[1] + 1):
+                if cur:
+                    chains.append(cur)
+                cur = []
+            cur.append((resn, key[1], []))
+            last_key = key
+        if name in [n for n, _ in cur[-1][2]]:
+            continue
+        cur[-1][2].append((name, np.array([float(line[30:38]),
+                                           float(line[38:46]),
+                                           float(line[46:54])])))
+    if cur:
+        chains.append(cur)
+    _WCACHE[fname] = chains
+    return chains
+
+
+def window_cases(ff, files=None, k=3, opt="default"):
+    out = []
+    for f in (files or WINDOW_FILES):
+        for ci, chain in enumerate(_file_residues(f)):
+            for i in range(0, len(chain) - k + 1):
+                out.append({"window": [f, ci, i, k], "ff": ff, "opt": opt,
+                            "env": []})
+    return out
+
+
+def build_window(desc):
+    f, ci, i, k = desc["window"]
+    chain = _file_residues(f)[ci]
+    atoms, info = [], []
+    for j, (resn, seq, alist) in enumerate(chain[i:i + k]):
+        tmpl = T.load()[0][resn]
+        for name, xyz in alist:
+            if name == "OXT" and j != k - 1:
+                continue
+            if name not in tmpl.atoms and name != "OXT":
+                continue
+            atoms.append(build.BAtom(name=name, res_name=resn, chain="A",
+                                     res_seq=seq, icode="", xyz=xyz.copy(),
+                                     record="ATOM", res_idx=j))
+        info.append({"kind": "aa", "input": resn,
+                     "position": "n" if j == 0 else "c" if j == k - 1 else "mid",
+                     "chain": "A", "res_seq": seq, "target": j == k // 2})
+    return build.pdb_text(atoms), info, atoms
